@@ -16,6 +16,13 @@
   als_func, anova with integer seed, optima_*, func_*, grid maps ...) - return bit-identical results (and info
   dictionaries, except the clock entry 't') on repeated calls with freshly built equal arguments under
   different global generator states and histories, and leave the global state untouched.
+* C10.history.scribbled_result / C10.seeded.scribbled_result (gap closure; history made by the CALLER): call, overwrite every
+  array of the result tree in place and empty every returned list / dict (`gen.scribble`), call again with freshly built equal
+  arguments (and, for plain array / list / number arguments, with the same argument objects): bit-identical to a result
+  obtained BEFORE the scribbling, which itself is not touched by it.  A memoised function (functools.lru_cache on hashable
+  arguments, a module-level table keyed on values or identities, a module-level work array handed out as the result) fails
+  for every input although plain repeated calls are bit-identical.  Whole C09 table (every flag variant, base shape; first
+  variant also d = 2 and d = 1) and the whole seeded table with integer seeds.
 * C10.defaults.info: cross / als / als_func called with the default `info` argument after an earlier default-info
   call with different stopping parameters return exactly what a call with a fresh info={} returns, and the default
   dictionary then holds exactly the fresh dictionary's entries (nothing carried over).
@@ -54,7 +61,9 @@ BUDGET = (100, 600)
 BOUNDS = ('40 seeded call patterns (18 base ones x 4 integer seeds incl. 2^40+12345 x 2 pairs of global states, 22 '
           'parameter variants x 2 seeds; quick) / 11 seeds x 4 pairs (thorough); deterministic table: every C09 pattern '
           'and flag variant (about 370) once (quick) / x 4 layouts x 5 shape variants (thorough); default-dict '
-          'histories: 3 functions x 8 parameter sets pairwise (subset in quick) + als allow_swap history')
+          'histories: 3 functions x 8 parameter sets pairwise (subset in quick) + als allow_swap history; caller-made '
+          'history (result overwritten / emptied, call repeated with fresh and with the same arguments): every C09 pattern and '
+          'flag variant (iterative fits: 4 variants in quick) + 40 seeded patterns x 2 integer seeds (5 thorough)')
 
 N3 = [3, 4, 2]
 
@@ -317,6 +326,70 @@ def deterministic_repeat(fn, layout, sv, variant, seed, ga, gb):
     return check(_same(r2, r3), 'immediately repeated call returns a different result')
 
 
+def _plain(x):
+    """only numbers / strings / None / arrays and lists, tuples of them (no callables, generators, dictionaries: objects with
+    a state of their own that a repeated call with the SAME objects would legitimately see)"""
+    if isinstance(x, (list, tuple)):
+        return all(_plain(e) for e in x)
+    return x is None or isinstance(x, (np.ndarray, np.generic, int, float, complex, str, bool))
+
+
+class _Raised(Exception):
+    pass
+
+
+def _run_or_raise(call):
+    out, exc = _result(call)
+    if exc is not None:
+        raise _Raised(f'{type(exc).__name__}: {exc}')
+    return out
+
+
+@clause('C10.history.scribbled_result', funcs=())
+def scribbled_result(fn, layout, sv, variant, seed):
+    """History = what the CALLER did with the result of an earlier call.  Call; overwrite every array of the result tree in
+    place and empty every returned list / dictionary (`gen.scribble`); call again with freshly built equal arguments (and,
+    for plain array / list / number arguments, once more with the very same argument objects): the repeated calls return
+    bit-identically what a call made BEFORE any modification returned, and that earlier result is not touched by the
+    scribbling.  A function that memoises (functools.lru_cache on hashable arguments, a module-level table keyed on the
+    bytes or the identity of an argument, a preallocated module-level work array handed out as the result) fails here for
+    every input, although plain repeated calls are bit-identical.  Runs over the whole call-pattern table of C09."""
+    try:
+        tab._build(fn, layout, sv, variant, seed)
+    except tab.NA as e:
+        return SKIP(str(e))
+
+    def make():
+        return tab._build(fn, layout, sv, variant, seed)
+    probe = make()
+    same = all(_plain(a) for k, a in probe.items() if k != 'info')
+    try:
+        msg = gen.call_scribble_call(make, _run_or_raise, same_objects=same, args_of=lambda c: [
+            c.args, {k: a for k, a in c.kwargs.items() if k != 'info'}])       # (pass-through results may alias arguments)
+    except _Raised as e:
+        why = tab._blocked(fn, variant, sv)
+        return SKIP(f'blocked by known defect {why}') if why else FAIL(f'call raised {e}')
+    return check(msg is None, msg)
+
+
+@clause('C10.seeded.scribbled_result', funcs=('utils._rand', 'tensors.rand', 'tensors.rand_norm', 'tensors.rand_stab',
+                                              'sample.sample', 'sample.sample_lhs', 'sample.sample_rand',
+                                              'sample.sample_rand_poi', 'sample.sample_tt', 'sample_func.sample_func',
+                                              'anova.anova', 'core.core_qr_rand', 'cross_act.cross_act',
+                                              'sample.sample_square'))
+def seeded_scribbled(fn, seed):
+    """The same for the seeded routines called with an INTEGER seed (hashable arguments: shape list / rank / seed could key
+    a memo table): call, scribble over the result, call again with the same seed - the original result comes back."""
+    f, _draws = SEEDED[fn]
+    try:
+        msg = gen.call_scribble_call(lambda: seed, lambda sd: _quiet(f, sd, seed), same_objects=False)
+    except Exception as e:
+        if fn.startswith('sample_square'):
+            return SKIP(f'sample_square raised {type(e).__name__} (C14 defect)')
+        raise
+    return check(msg is None, msg)
+
+
 def _default_info(f):
     return inspect.signature(f).parameters['info'].default
 
@@ -451,6 +524,23 @@ def cases(tier, seed):
                       for k, v in enumerate(variants)] + [(tab.LAYOUTS[j % 4], tab.SHAPE_VARIANTS[1 + j % 4], variants[0])]
         for L, sv, v in combos:
             yield 'C10.deterministic.repeat', dict(fn=fn, layout=L, sv=sv, variant=v, seed=rs(), ga=rs(16), gb=rs(16))
+    # ---- history made by the CALLER: the result of an earlier call overwritten / emptied, then the same call repeated.  Every
+    # pattern and flag variant of the table on the base shape (a memo table does not care about layouts; the key would be built
+    # from the argument values), the first variant also for d = 2, and the one-core shape; thorough: all shape variants, 2 seeds.
+    g3 = gen.rng('C10scribble', seed)
+    for fn in sorted(tab.PATTERNS):
+        variants = tab.PATTERNS[fn][1]
+        for k, v in enumerate(variants):
+            if not big and k >= 4 and fn in ('als', 'als_func', 'cross', 'cross_act'):
+                continue        # (the iterative fits are the expensive calls; a memo table sits in front of all flag variants)
+            svs = (tab.SHAPE_VARIANTS + ('d1',)) if big else (('base', 'd2', 'd1') if k == 0 else ('base',))
+            for sv in svs:
+                for rep in range(2 if big else 1):
+                    yield 'C10.history.scribbled_result', dict(fn=fn, layout=('C', 'F')[rep], sv=sv, variant=v,
+                                                               seed=int(g3.integers(1 << 20)))
+    for fn in SEEDED:
+        for sd in (0, BIG_SEED) + ((1, 42, int(g3.integers(1 << 20))) if big else ()):
+            yield 'C10.seeded.scribbled_result', dict(fn=fn, seed=sd)
     for fn in ('cross', 'als', 'als_func'):
         for first in range(8):
             for second in range(8):
